@@ -6,6 +6,9 @@ mod chains;
 mod client;
 #[path = "../../coq/gen/gen_chains.rs"]
 mod gen_chains;
+#[path = "../../coq/gen/gen_fns.rs"]
+mod gen_fns;
+mod fnrun;
 mod crash;
 mod dump;
 mod frames;
@@ -33,6 +36,7 @@ fn main() {
         "crash-child" => crash::child(),
         "crash-gen" => crash::gen(&args[2..]),
         "parse" => parse::main(&args[2..]),
+        "fns" => fnrun::main(&args[2..]),
         "owned" => owned::main(&args[2..]),
         "chains" => chains::main(&args[2..]),
         "frames" => frames::main(&args[2..]),
